@@ -207,6 +207,39 @@ fn affine_case_cmplx_zc(m: usize, n: usize, pat: usize, zero_col: Option<usize>)
     Ok(())
 }
 
+/// 2x2 integer affine maps in two regimes where every quantity of the difference quotient is still exactly representable:
+/// kind 0 - function values that are SUBNORMAL (x -> 2^-1074 (M x + c), M over {16,48,-32,0}, delta = 2^-4: halving a value with an odd
+/// last bit rounds); kind 1 - a large offset (c = 1.5 * 2^26 + integers, M over {1,-2,3,0}, delta = 2^-26: the difference M delta is one
+/// or a few units in the last place of f, not "cancellation noise"). Real and complex Jacobians; J must equal scale * M exactly.
+fn integer_map_case(idx: u64, kind: usize) -> Result<(), String> {
+    let ml: [f64; 4] = if kind == 0 { [16.0, 48.0, -32.0, 0.0] } else { [1.0, -2.0, 3.0, 0.0] };
+    let (scale, delta, offset) = if kind == 0 { (2f64.powi(-1074), 2f64.powi(-4), 0.0) } else { (1.0, 2f64.powi(-26), 1.5 * 2f64.powi(26)) };
+    let mut d = vec![0usize; 4];
+    digits_uniform(idx, 4, &mut d);
+    let m = [[ml[d[0]], ml[d[1]]], [ml[d[2]], ml[d[3]]]];
+    let c = [offset + 1.0, offset - 3.0];
+    for (x0, x1) in [(2.0f64, -1.0f64), (3.0, 2.0), (-1.0, 3.0), (0.0, 1.0)] {
+        // the scale is applied to the exactly computed integer value (2^-1074 * integer is exact; for kind 1 the scale is 1)
+        let f = |v: Vec64| -> Vec64 { Vector::create((0..2).map(|i| (m[i][0] * v[0] + m[i][1] * v[1] + c[i]) * scale).collect()) };
+        let jac = Mat64::jacobian(Vector::create(vec![x0, x1]), &f, delta);
+        for i in 0..2 {
+            for j in 0..2 {
+                ensure!(jac[(i, j)] == m[i][j] * scale, "real: J[{},{}] = {:e} but the entry is {:e} (M = {:?}, point ({}, {}), delta = 2^{}, values scaled by {:e}, offset {:e})", i, j, jac[(i, j)], m[i][j] * scale, m, x0, x1, delta.log2(), scale, offset);
+            }
+        }
+        let fz = |v: Vector<Cmplx>| -> Vector<Cmplx> {
+            Vector::create((0..2).map(|i| Cmplx::new((m[i][0] * v[0].real + m[i][1] * v[1].real + c[i]) * scale, (m[i][0] * v[0].imag + m[i][1] * v[1].imag + 2.0) * scale)).collect())
+        };
+        let jz = Matrix::<Cmplx>::jacobian_cmplx(Vector::create(vec![Cmplx::new(x0, 1.0), Cmplx::new(x1, -2.0)]), &fz, delta);
+        for i in 0..2 {
+            for j in 0..2 {
+                ensure!(jz[(i, j)].real == m[i][j] * scale && jz[(i, j)].imag == 0.0, "complex: J[{},{}] = {:?} but the entry is {:e} (M = {:?}, point ({}, {}), delta = 2^{}, values scaled by {:e}, offset {:e})", i, j, jz[(i, j)], m[i][j] * scale, m, x0, x1, delta.log2(), scale, offset);
+            }
+        }
+    }
+    Ok(())
+}
+
 fn smooth_case(m: usize, n: usize, acc: &mut Acc) -> Result<(), String> {
     // F_i(x) = sin(x_{i mod n}) + x_{i mod n} * x_{(i+1) mod n} ; second derivatives bounded by 3 on [-4,4]
     let f = |x: Vec64| -> Vec64 { Vector::create((0..m).map(|i| x[i % n].sin() + x[i % n] * x[(i + 1) % n]).collect()) };
@@ -361,5 +394,16 @@ fn main() {
             }
         },
     );
+    for kind in 0..2usize {
+        ctx.lattice(
+            if kind == 0 { "2x2 integer maps with SUBNORMAL values (2^-1074 (M x + c), M over {16,48,-32,0}, delta 2^-4): J = 2^-1074 M exactly, real and complex" } else { "2x2 integer maps with a large offset (c = 1.5 2^26 + .., M over {1,-2,3,0}, delta 2^-26): J = M exactly, real and complex" },
+            256,
+            |idx| format!("M#{}", idx),
+            |idx, acc| {
+                acc.nontriv("integer map in an exactly representable extreme regime");
+                judge(acc, idx, || format!("integer map kind {} M#{}", kind, idx), || integer_map_case(idx, kind));
+            },
+        );
+    }
     std::process::exit(ctx.finish());
 }
